@@ -1,5 +1,5 @@
 (* C20 - which groups hold backups.  Statements only. *)
-From E2V Require Import Layout.Layout Layout.LayoutProofs.
+From E2V Require Import Layout.Layout Layout.LayoutProofs Layout.BackupBgs Layout.BackupBgsProofs.
 Local Open Scope N_scope.
 
 Theorem test_root_is_power : forall a b, 2 <= b -> a < 2 ^ 64 ->
@@ -102,3 +102,26 @@ Print Assumptions descriptor_reader_old_refuted.
 Example ex_groups : map (bg_has_super (mkSb true false 0 0 false 0 32 1 0 1 8192 1024)) [0;1;2;3;9;15;25;27;49;50;343] =
                     [true;true;false;true;true;false;true;true;true;false;true].
 Proof. vm_compute. reflexivity. Qed.
+
+(* sparse_super2, growing the file system: the second backup group either stays where it is or moves to the new last group,
+   and when it moves, the group it leaves is the old last group - the one whose backup blocks resize2fs releases *)
+Theorem grown_fs_abandons_only_released_backups : forall old_n new_n b1,
+  1 <= old_n -> old_n < new_n -> b1 < old_n -> b1 <> 0 ->
+  grow_b1_new old_n new_n b1 < new_n /\
+  (grow_b1_new old_n new_n b1 <> b1 -> released old_n b1 = true).
+Proof.
+  intros old_n new_n b1 H1 Hg Hb Hnz. split.
+  - apply grow_new_in_range; assumption.
+  - apply grow_new_releases_what_it_abandons; assumption.
+Qed.
+Print Assumptions grown_fs_abandons_only_released_backups.
+
+(* before the repair: 5 groups with s_backup_bgs = {0, 1} grown to 8 - the backup of group 1 is abandoned, not released *)
+Theorem grown_fs_old_refuted : exists old_n new_n b1,
+  1 <= old_n /\ old_n < new_n /\ b1 < old_n /\ b1 <> 0 /\
+  grow_b1_old old_n new_n b1 <> b1 /\ released old_n b1 = false.
+Proof.
+  exists 5, 8, 1. split; [lia|]. split; [lia|]. split; [lia|]. split; [discriminate|].
+  split; [rewrite (proj1 grow_old_refuted); discriminate | exact (proj2 grow_old_refuted)].
+Qed.
+Print Assumptions grown_fs_old_refuted.
